@@ -718,6 +718,14 @@ def r39(text):
     return text.replace(".map_or_\x00(", ".map_or("), n
 
 
+@rule("R40", "Closure parameters Verus cannot parse, renamed without changing meaning: `|_| E` -> `|_w_| E`, `|()| E` -> `|_w_: ()| E` "
+             "(an ignored argument stays ignored).")
+def r40(text):
+    t, n1 = re.subn(r"\|\s*_\s*\|", "|_w_|", text)
+    t, n2 = re.subn(r"\|\s*\(\s*\)\s*\|", "|_w_: ()|", t)
+    return t, n1 + n2
+
+
 @rule("R31", "`S.split_at(mid)` -> `slice_split_at(S, mid)`: verified definitional implementation whose precondition "
              "`mid <= len` is the panic condition of the std function.")
 def r31(text):
